@@ -30,6 +30,32 @@ pub fn gen_hungarian(r: &mut Rng, tier: &str) -> Vec<Case> {
     let maxn = scale(tier, 9, 24);
     (0..n)
         .map(|i| {
+            if i % 400 == 131 {
+                // more than 2048 rows with weights just below 2^20: the optimum (the diagonal, by
+                // construction) is 2^31 or more; built from the seed, checked by a direct oracle only
+                return Case { stream: "hungarian", data: json!({"diag": 2049 + r.usize(60), "seed": r.next()}) };
+            }
+            if i % 400 == 231 {
+                // more than 65536 rows, three of them selected (at least one with an index above 65535)
+                let nx = 65537 + r.usize(20);
+                let ny = 3;
+                let mut skipx = vec![true; nx];
+                let mut live = vec![nx - 1 - r.usize(nx - 65536), r.usize(65536), r.usize(nx)];
+                live.sort();
+                live.dedup();
+                while live.len() < 3 {
+                    let x = r.usize(nx);
+                    if !live.contains(&x) {
+                        live.push(x);
+                    }
+                }
+                for x in live.iter() {
+                    skipx[*x] = false;
+                }
+                let w: Vec<i32> = (0..nx * ny).map(|_| r.below(50) as i32).collect();
+                let m = gen::Matrix { nx, ny, w, dummy: vec![false; nx], mand: vec![false; ny], skipx, skipy: vec![false; ny] };
+                return Case { stream: "hungarian", data: json!({"m": m.to_json(), "layout": "c", "huge": false}) };
+            }
             let adm = i % 8 != 7;
             let size = if i % 5 == 0 { maxn } else { 6 };
             // long rows (64 or more columns: vectorised paths, chunking), generic and caobab-shaped
@@ -60,6 +86,25 @@ pub fn gen_hungarian(r: &mut Rng, tier: &str) -> Vec<Case> {
 }
 
 pub fn run_hungarian(data: &Value) -> Vec<Line> {
+    if let Some(n) = data["diag"].as_u64() {
+        let n = n as usize;
+        let mut r = Rng::new(data["seed"].as_u64().unwrap_or(1) | 1);
+        let big = (1i32 << 20) - 1;
+        let mut w = ndarray::Array2::<i32>::zeros([n, n]);
+        for x in 0..n {
+            for y in 0..n {
+                w[[x, y]] = if x == y { big } else { r.below(1000) as i32 };
+            }
+        }
+        let f = ndarray::Array1::from_vec(vec![false; n]);
+        let res = catch(|| verif::hungarian_algorithm(&w, &f, &f, &f, &f));
+        let expect = n as u64 * big as u64;
+        return vec![match res {
+            Ok((mm, sc)) => Line::direct(&["C07"], sc as u64 == expect && mm.iter().enumerate().all(|(y, x)| *x == y),
+                format!("{} x {} matrix with 2^20-1 on the diagonal and weights < 1000 elsewhere: score {} (optimum {}), diagonal matching: {}", n, n, sc, expect, mm.iter().enumerate().all(|(y, x)| *x == y))),
+            Err(e) => Line::direct(&["C07"], false, format!("{} x {} diagonal matrix: panicked: {}", n, n, e)),
+        }];
+    }
     let m = Matrix::from_json(&data["m"]);
     let w = if data["layout"].as_str() == Some("f") {
         use ndarray::ShapeBuilder;
@@ -82,7 +127,8 @@ pub fn run_hungarian(data: &Value) -> Vec<Line> {
     let res = catch(|| verif::hungarian_algorithm(&w, &d, &ma, &sx, &sy));
     let huge = data["huge"].as_bool().unwrap_or(false);
     let text = m.to_text();
-    let opt = if m.nx <= 9 { Some(brute::brute_matching(&m)) } else { None };
+    let live_rows = m.skipx.iter().filter(|x| !**x).count();
+    let opt = if m.nx <= 9 || live_rows <= 6 { Some(brute::brute_matching(&m)) } else { None };
     let mut lines = vec![];
     let live = m.skipx.iter().filter(|x| !**x).count();
     let feat = vec![format!("live={}", live.min(12)), format!("mand={}", m.mand.iter().zip(m.skipy.iter()).filter(|(a, b)| **a && !**b).count().min(6))];
